@@ -13,6 +13,7 @@
 (* Arr (SEQUENCE), and [t |-> "ber", ty, ...] for                          *)
 (*   "str"  (tag 19 PrintableString / 22 IA5String, s)   "set" (a)         *)
 (*   "ctx"  (context-specific constructed [tag] { a })   "oid" (arcs)      *)
+(*   "real" (REAL in the binary encoding: sign, mantissa, base, F, E)      *)
 (* Domain notes: contents of INTEGER are minimal two's complement (8.3.2), *)
 (* so only the length octets vary; fq reads long-form lengths of at most 8 *)
 (* octets (decodeLength: `TODO: bigint`), LongK stays inside that.         *)
@@ -51,6 +52,21 @@ EncString(tag, s, text) ==
 
 OidContent(arcs) == <<40 * arcs[1] + arcs[2]>> \o Flat([i \in 1..(Len(arcs) - 2) |-> B128(arcs[i + 2])])
 
+\* REAL, binary encoding (8.5.7): value = S * N * 2^F * B^E with B in {2, 8, 16}, F in 0..3.  First contents octet:
+\* 1 S bb ff ee (bb: base 2/8/16, ff: F, ee: exponent format); then the exponent in two's complement in 1, 2 or 3 octets
+\* (ee = 0, 1, 2) or a count octet and that many octets (ee = 3); then N as an unsigned binary number.
+\* v = [t |-> "ber", ty |-> "real", neg, n (1 .. 2^20), base, f, e (an IntV)]
+RealFirst(v, ee) == 128 + (IF v.neg THEN 64 ELSE 0) + (CASE v.base = 2 -> 0 [] v.base = 8 -> 16 [] OTHER -> 32) + 4 * v.f + ee
+RealExps(v) == {<<RealFirst(v, w - 1)>> \o SEnc(v.e, w) : w \in {w \in 1..3 : SFits(v.e, w)}}
+               \cup {<<RealFirst(v, 3), w>> \o SEnc(v.e, w) : w \in {w \in 1..4 : SFits(v.e, w)}}
+RealMant(v) == {Strip(BE(v.n, 4)), <<0>> \o Strip(BE(v.n, 4))}
+RealContent(v) == {x \o m : x \in RealExps(v), m \in RealMant(v)}
+\* the binary64 pattern of the value: exact for the mantissas and exponents used (normal range)
+RealShift(v) == v.f + (CASE v.base = 2 -> 1 [] v.base = 8 -> 3 [] OTHER -> 4) * (IF v.e.neg THEN 0 - SmallOf(v.e.mag) ELSE SmallOf(v.e.mag))
+RealF64(v) == LET sb == SigBits(BE(v.n, 4))
+                  h  == Len(sb) - 1
+              IN BytesOfBits(<<IF v.neg THEN 1 ELSE 0>> \o BitsOfVal(h + RealShift(v) + 1023, 11) \o Tail(sb) \o Zeros(52 - h))
+
 RECURSIVE Enc(_)
 Items(a) == CatAll([i \in 1..Len(a) |-> Enc(a[i])])
 Enc(v) ==
@@ -64,6 +80,7 @@ Enc(v) ==
           (CASE v.ty = "str" -> EncString(v.tag, v.s, TRUE)
              [] v.ty = "set" -> UNION {Constructed(0, 17, b) : b \in Items(v.a)}
              [] v.ty = "ctx" -> UNION {Constructed(2, v.tag, b) : b \in Items(v.a)}
+             [] v.ty = "real" -> UNION {Primitive(0, 9, c) : c \in RealContent(v)}
              [] v.ty = "oid" -> Primitive(0, 6, OidContent(v.arcs)))
 
 \* torepr: SEQUENCE, SET and context-tagged constructed values are arrays of their members,
@@ -74,6 +91,7 @@ Repr(v) ==
       [] v.t = "arr" -> Arr([i \in 1..Len(v.a) |-> Repr(v.a[i])])
       [] v.t = "ber" ->
           (CASE v.ty = "str" -> Str(v.s)
+             [] v.ty = "real" -> F64(RealF64(v))
              [] v.ty = "oid" -> Arr([i \in 1..Len(v.arcs) |-> IntV(FALSE, MagOf(v.arcs[i]))])
              [] OTHER -> Arr([i \in 1..Len(v.a) |-> Repr(v.a[i])]))
       [] OTHER -> v
